@@ -258,4 +258,11 @@ silent("C05", "bound-float-of-numpy", E(PP, "prune_token_dictionary", "         
 fire("C06", "add-mutates-left-operand", "R6.4", E(NG, "NgramVectorizer.__add__", "joint_column_index_dictionary = self.column_index_dictionary_.copy()", "joint_column_index_dictionary = self.column_index_dictionary_"), "the merged dictionary is built in the left operand's own dictionary")
 fire("C13", "add-mutates-left-operand", "R13.1", E(NG, "NgramVectorizer.__add__", "joint_column_index_dictionary = self.column_index_dictionary_.copy()", "joint_column_index_dictionary = self.column_index_dictionary_"), "the merged dictionary is built in the left operand's own dictionary")
 
+fire("C10", "em-clamped-position", "R10.2", E(COO, "em_update_matrix", "                context_ind[i + win_offset[w]] = np.searchsorted(\n                    col_ind, context + w * n_unique_tokens\n                )\n", "                context_ind[i + win_offset[w]] = min(np.searchsorted(\n                    col_ind, context + w * n_unique_tokens\n                ), col_ind.shape[0] - 1)\n"),
+     "range test replaced by a clamp that is -1 for an empty row", allow_error=False)
+fire("C12", "lz-shared-base-dict", "R12.1", [E(MG, "LZCompressionVectorizer.transform", "        for string in X:\n", "        shared = numba.typed.Dict.empty(numba.types.unicode_type, numba.types.int64)\n        for string in X:\n"),
+     E(MG, "LZCompressionVectorizer.transform", "            if self.max_columns is not None:\n                input_dict = numba.typed.Dict.empty(numba.types.int32, numba.types.int64)\n            else:\n                input_dict = numba.typed.Dict.empty(numba.types.unicode_type, numba.types.int64)\n", "            input_dict = shared\n")],
+     "every string parses into one shared dictionary object through a local alias")
+fire("C14", "mask-radius-bumped", "R14.3", E(WK, "variable_window_radii", "    result[(result > 0) * (result < 1)] = 1.0\n", "    result[result < 1] = 1.0\n"), "the zeroed radius of the mask token is raised to 1 again")
+
 VARIANTS = V
